@@ -85,6 +85,16 @@ for ci in range(n_runs):
             ws = rng.sample(labels, rng.randint(1, nw)); ms.append(qp.probs(wires=ws)); md.append({"kind": "probs", "wires": ws})
         elif r < 0.45:
             ms.append(qp.state()); md.append({"kind": "state"})
+        elif r < 0.53:
+            ws = rng.sample(labels, rng.randint(1, min(3, nw))); ms.append(qp.density_matrix(wires=ws)); md.append({"kind": "dm", "wires": ws})
+        elif r < 0.58:
+            ws = rng.sample(labels, rng.randint(1, nw)); ms.append(qp.purity(wires=ws)); md.append({"kind": "purity", "wires": ws})
+        elif r < 0.63:
+            ws = rng.sample(labels, rng.randint(1, nw)); ms.append(qp.vn_entropy(wires=ws)); md.append({"kind": "vn", "wires": ws})
+        elif r < 0.70 and nw >= 2:
+            k0 = rng.randint(1, nw - 1); perm = rng.sample(labels, nw); k1 = rng.randint(1, nw - k0)
+            w0, w1 = perm[:k0], perm[k0:k0 + k1]
+            ms.append(qp.mutual_info(wires0=w0, wires1=w1)); md.append({"kind": "mi", "wires0": w0, "wires1": w1})
         else:
             ws = rng.sample(labels, rng.randint(1, min(3, nw))); word = [rng.choice("XYZ") for _ in ws]
             o = qp.prod(*[getattr(qp, "Pauli" + c)(w) for c, w in zip(word, ws)]) if len(ws) > 1 else getattr(qp, "Pauli" + word[0])(ws[0])
